@@ -41,6 +41,10 @@ func init() {
 		{Name: "seq", Pkg: "./mon/c10", Procs: 1},
 		{Name: "coop", Pkg: "./mon/c10", Instr: []string{"core/flow/tc_throttling.go"}, Env: []string{"VERIF_MODE=coop"}},
 	}})
+	specs = append(specs, Spec{ID: "C12", Level: "exploration", MinDistinct: 1000, Engines: []Engine{
+		{Name: "coop", Pkg: "./mon/c12", Instr: []string{"core/circuitbreaker/circuit_breaker.go", "core/stat/base/leap_array.go"}},
+		{Name: "stress", Pkg: "./mon/c12", Race: true, Env: []string{"VERIF_MODE=stress"}, DeathSig: "C12/stress:process-died"},
+	}})
 	specs = append(specs, Spec{ID: "C13", Level: "exploration", MinDistinct: 50, Engines: []Engine{
 		{Name: "seq", Pkg: "./mon/c13", Procs: 1},
 	}})
